@@ -94,19 +94,25 @@ theorem quotedEntry_no_leak (pf : Bytes → Option UInt64) (items : List Item) (
   exact ((producer_exits_iff items.length k true t hr hs).2).2 (Or.inr rfl)
 
 /-- `parseQuotedExpr(str)` is `quotedEntry` on the items of the nested lexer: the tree on
-    success, `t.errorf` of the enclosing parser on a nested error -/
+    success (moved to the enclosing parser's current token, `setPos`), `t.errorf` of the
+    enclosing parser on a nested error -/
 theorem parseQuotedExpr_eq (pf : Bytes → Option UInt64) (str : Bytes) (is : List Item) (st : FState)
     (hl : Lex.lexAll str true = .items is) :
     parseQuotedExpr pf str st =
       match (quotedEntry pf is).result with
-      | .ok e => .ok (e, st)
+      | .ok e =>
+        (match Parser.errPos st.p with
+         | .ok p => .ok (reposition p e, st)
+         | .error _ => .error .panic)
       | .error (.err _) => (FileParser.errorf : FP Expr) st
       | .error .panic => .error .panic
       | .error .fuelOut => .error .fuelOut := by
   unfold parseQuotedExpr quotedEntry
   rw [hl]
   simp only
-  split <;> simp_all
+  cases (Parser.parseExpr pf (Parser.fuelFor is.length) 0).run (Parser.initState is) with
+  | ok r => rfl
+  | error e => cases e <;> rfl
 
 /-- for EVERY input: `parse.SoyFile` returns a tree or a positioned error, and in either case
     its lexer goroutine can finish -/
